@@ -1,12 +1,29 @@
 /-
 Driver for E5/print (C15).
-  {"op":"print","node":N,"cfg":"generated"|"prefix","cap":k}
-      → {"toks":[tok…],"wf":bool,"read":N|null,"norm":N,"postfix_ok":bool}
+  {"op":"print","node":N,"cfg":"generated"|"prefix"|"fixed","cap":k}
+      → {"toks":[tok…],"wf":bool,"read":N|null,"norm":N,"postfix_ok":bool,"erased":IRnode,"erased_norm":IRnode}
   {"op":"read","toks":[tok…],"cap":k} → {"node":N|null}
+  {"op":"rules","rules":[{"name":s,"rhs":N,"gen":E|null}…],"cap":k}
+      → {"texts":[{"name":s,"rhs":[tok…],"gen":[etok…]|null}…],"wf":bool,"read":[rule…]|null,"norm":[rule…]}
   {"op":"pyrepr","kind":"t"|"b","v":[nat…],"printable":[nat…]} → {"text":[nat…]}
   {"op":"pyeval","kind":"t"|"b","text":[nat…]} → {"v":[nat…]|null}
-tok := "(" | ")" | "|" | "*" | "+" | "?" | ["{",n] | ["{",n,m] | ["{,",n]
-     | ["nt",name,sender|null,recipient|null] | ["lit",leaf] | ["re",id]
+  {"op":"reprint","bytes":bool,"pat":[nat…]}
+      → {"text":[nat…],"wf":bool,"noff":bool,"rewrites":bool,"spelled":[nat…],
+         "eval":{"bytes":bool,"v":[nat…]}|null,"steps":[[before,after]…]}     (regex terminals)
+  {"op":"raweval","text":[nat…]} → {"v":{"bytes":bool,"v":[nat…]}|null}       (one-line raw literal)
+  {"op":"selprint","top":T} → {"toks":[stok…],"wf":bool,"read":T|null,"norm":T,"flat":bool}
+  {"op":"selread","toks":[stok…]} → {"top":T|null}
+N    := IR node of Driver/IRJson | ["crep",id,N,CB]
+CB   := ["single",E] | ["range",B,B|null]          B := ["num",n] | ["expr",E]
+E    := [seg…]   seg := ["code",text] | ["sel",T]
+T    := ["plain"|"star"|"lenbar"|"lenstar",S]
+S    := ["rule",nt] | ["attr",S,S] | ["desc",S,S] | ["item",S,[slice…]] | ["sel",S,[pair…]]
+slice:= ["idx",n] | ["rng",a|null,b|null,c|null]     pair := [sym,direct,slice|null]
+tok  := "(" | ")" | "|" | "*" | "+" | "?" | ["{",n] | ["{",n,m] | ["{,",n] | ["{c",CBT]
+      | ["nt",name,sender|null,recipient|null] | ["lit",leaf] | ["re",id]
+CBT  := ["single",[etok…]] | ["range",BT|null,BT|null]      BT := ["num",n] | ["expr",[etok…]]
+etok := ["code",text] | ["s",stok]
+stok := ["nt",name] | ["num",n] | "." | ".." | "[" | "]" | "{" | "}" | "," | ":" | "*" | "(" | ")" | "|" | "len"
 -/
 import Driver.IRJson
 import Model.Print
@@ -16,11 +33,225 @@ open Lean FV FV.Drv
 
 def jNat (n : Nat) : Json := Json.num (JsonNumber.fromNat n)
 
+def jOptNat : Option Nat → Json
+  | some n => jNat n
+  | none => Json.null
+
+def optNatOf (j : Json) : Except String (Option Nat) :=
+  match j with
+  | .null => pure none
+  | j => do return some (← j.getNat?)
+
+def elOf (a : Array Json) (i : Nat) : Json := a[i]?.getD Json.null
+
+/-! ### selectors -/
+
+def sliceOf (j : Json) : Except String PS.Slice := do
+  let a ← j.getArr?
+  match ← (elOf a 0).getStr?, a.size with
+  | "idx", 2 => return .idx (← (elOf a 1).getNat?)
+  | "rng", 4 => return .rng (← optNatOf (elOf a 1)) (← optNatOf (elOf a 2)) (← optNatOf (elOf a 3))
+  | _, _ => throw s!"bad slice {j.compress}"
+
+def jSlice : PS.Slice → Json
+  | .idx n => Json.arr #["idx", jNat n]
+  | .rng a b c => Json.arr #["rng", jOptNat a, jOptNat b, jOptNat c]
+
+def pairOf (j : Json) : Except String PS.Pair := do
+  let a ← j.getArr?
+  if a.size != 3 then throw s!"bad pair {j.compress}"
+  let items ← match elOf a 2 with
+    | .null => pure none
+    | x => do pure (some (← sliceOf x))
+  return ⟨← (elOf a 0).getStr?, ← (elOf a 1).getBool?, items⟩
+
+def jPair (p : PS.Pair) : Json :=
+  Json.arr #[Json.str p.sym, Json.bool p.direct, match p.items with | none => Json.null | some s => jSlice s]
+
+partial def selOf (j : Json) : Except String PS.Sel := do
+  let a ← j.getArr?
+  match ← (elOf a 0).getStr?, a.size with
+  | "rule", 2 => return .rule (← (elOf a 1).getStr?)
+  | "attr", 3 => return .attr (← selOf (elOf a 1)) (← selOf (elOf a 2))
+  | "desc", 3 => return .desc (← selOf (elOf a 1)) (← selOf (elOf a 2))
+  | "item", 3 => return .item (← selOf (elOf a 1)) (← (← (elOf a 2).getArr?).toList.mapM sliceOf)
+  | "sel", 3 => return .sel (← selOf (elOf a 1)) (← (← (elOf a 2).getArr?).toList.mapM pairOf)
+  | _, _ => throw s!"bad selector {j.compress}"
+
+partial def jSel : PS.Sel → Json
+  | .rule n => Json.arr #["rule", Json.str n]
+  | .attr b a => Json.arr #["attr", jSel b, jSel a]
+  | .desc b a => Json.arr #["desc", jSel b, jSel a]
+  | .item b sl => Json.arr #["item", jSel b, Json.arr (sl.map jSlice).toArray]
+  | .sel b ps => Json.arr #["sel", jSel b, Json.arr (ps.map jPair).toArray]
+
+def topOf (j : Json) : Except String PS.Top := do
+  let a ← j.getArr?
+  if a.size != 2 then throw s!"bad selector top {j.compress}"
+  let s ← selOf (elOf a 1)
+  match ← (elOf a 0).getStr? with
+  | "plain" => return .plain s
+  | "star" => return .star s
+  | "lenbar" => return .lenBar s
+  | "lenstar" => return .lenStar s
+  | t => throw s!"bad selector top tag {t}"
+
+def jTop : PS.Top → Json
+  | .plain s => Json.arr #["plain", jSel s]
+  | .star s => Json.arr #["star", jSel s]
+  | .lenBar s => Json.arr #["lenbar", jSel s]
+  | .lenStar s => Json.arr #["lenstar", jSel s]
+
+def jSTok : PS.STok → Json
+  | .nt n => Json.arr #["nt", Json.str n]
+  | .num n => Json.arr #["num", jNat n]
+  | .dot => "." | .dotdot => ".." | .lbr => "[" | .rbr => "]" | .lbrace => "{" | .rbrace => "}"
+  | .comma => "," | .colon => ":" | .star => "*" | .lp => "(" | .rp => ")" | .bar => "|" | .len => "len"
+
+def stokOf (j : Json) : Except String PS.STok := do
+  match j with
+  | .str "." => return .dot
+  | .str ".." => return .dotdot
+  | .str "[" => return .lbr
+  | .str "]" => return .rbr
+  | .str "{" => return .lbrace
+  | .str "}" => return .rbrace
+  | .str "," => return .comma
+  | .str ":" => return .colon
+  | .str "*" => return .star
+  | .str "(" => return .lp
+  | .str ")" => return .rp
+  | .str "|" => return .bar
+  | .str "len" => return .len
+  | .arr a =>
+    match ← (elOf a 0).getStr?, a.size with
+    | "nt", 2 => return .nt (← (elOf a 1).getStr?)
+    | "num", 2 => return .num (← (elOf a 1).getNat?)
+    | _, _ => throw s!"bad selector token {j.compress}"
+  | _ => throw s!"bad selector token {j.compress}"
+
+/-! ### expressions, computed bounds -/
+
+def segOf (j : Json) : Except String Seg := do
+  let a ← j.getArr?
+  match ← (elOf a 0).getStr?, a.size with
+  | "code", 2 => return .code (← (elOf a 1).getStr?)
+  | "sel", 2 => return .sel (← topOf (elOf a 1))
+  | _, _ => throw s!"bad segment {j.compress}"
+
+def exprOf (j : Json) : Except String Expr := do (← j.getArr?).toList.mapM segOf
+
+def jSeg : Seg → Json
+  | .code c => Json.arr #["code", Json.str c]
+  | .sel t => Json.arr #["sel", jTop t]
+
+def jExpr (e : Expr) : Json := Json.arr (e.map jSeg).toArray
+
+def jETok : ETok → Json
+  | .code c => Json.arr #["code", Json.str c]
+  | .s t => Json.arr #["s", jSTok t]
+
+def etokOf (j : Json) : Except String ETok := do
+  let a ← j.getArr?
+  match ← (elOf a 0).getStr?, a.size with
+  | "code", 2 => return .code (← (elOf a 1).getStr?)
+  | "s", 2 => return .s (← stokOf (elOf a 1))
+  | _, _ => throw s!"bad expression token {j.compress}"
+
+def jETokens (ts : List ETok) : Json := Json.arr (ts.map jETok).toArray
+def etokensOf (j : Json) : Except String (List ETok) := do (← j.getArr?).toList.mapM etokOf
+
+def boundOf (j : Json) : Except String Bound := do
+  let a ← j.getArr?
+  match ← (elOf a 0).getStr?, a.size with
+  | "num", 2 => return .num (← (elOf a 1).getNat?)
+  | "expr", 2 => return .expr (← exprOf (elOf a 1))
+  | _, _ => throw s!"bad bound {j.compress}"
+
+def jBound : Bound → Json
+  | .num n => Json.arr #["num", jNat n]
+  | .expr e => Json.arr #["expr", jExpr e]
+
+def cbOf (j : Json) : Except String CB := do
+  let a ← j.getArr?
+  match ← (elOf a 0).getStr?, a.size with
+  | "single", 2 => return .single (← exprOf (elOf a 1))
+  | "range", 3 =>
+    let hi ← match elOf a 2 with
+      | .null => pure none
+      | x => do pure (some (← boundOf x))
+    return .range (← boundOf (elOf a 1)) hi
+  | _, _ => throw s!"bad computed bounds {j.compress}"
+
+def jCB : CB → Json
+  | .single e => Json.arr #["single", jExpr e]
+  | .range lo hi => Json.arr #["range", jBound lo, match hi with | none => Json.null | some b => jBound b]
+
+def jBoundT : BoundT → Json
+  | .num n => Json.arr #["num", jNat n]
+  | .expr ts => Json.arr #["expr", jETokens ts]
+
+def boundTOf (j : Json) : Except String BoundT := do
+  let a ← j.getArr?
+  match ← (elOf a 0).getStr?, a.size with
+  | "num", 2 => return .num (← (elOf a 1).getNat?)
+  | "expr", 2 => return .expr (← etokensOf (elOf a 1))
+  | _, _ => throw s!"bad bound token {j.compress}"
+
+def optBoundTOf (j : Json) : Except String (Option BoundT) :=
+  match j with
+  | .null => pure none
+  | x => do pure (some (← boundTOf x))
+
+def jOptBoundT : Option BoundT → Json
+  | none => Json.null
+  | some b => jBoundT b
+
+def jCBT : CBT → Json
+  | .single ts => Json.arr #["single", jETokens ts]
+  | .range lo hi => Json.arr #["range", jOptBoundT lo, jOptBoundT hi]
+
+def cbtOf (j : Json) : Except String CBT := do
+  let a ← j.getArr?
+  match ← (elOf a 0).getStr?, a.size with
+  | "single", 2 => return .single (← etokensOf (elOf a 1))
+  | "range", 3 => return .range (← optBoundTOf (elOf a 1)) (← optBoundTOf (elOf a 2))
+  | _, _ => throw s!"bad computed brace group {j.compress}"
+
+/-! ### nodes -/
+
+partial def enodeOf (j : Json) : Except String ENode := do
+  let a ← j.getArr?
+  let tag ← (elOf a 0).getStr?
+  match tag with
+  | "lit" => return .term (.lit (← leafOfJson (elOf a 1)))
+  | "re" => return .term (.regex (← (elOf a 1).getNat?))
+  | "nt" => return .nt (← (elOf a 1).getStr?) (optStr (elOf a 2)) (optStr (elOf a 3))
+  | "alt" => return .alt (← (elOf a 1).getStr?) (← (← (elOf a 2).getArr?).toList.mapM enodeOf)
+  | "cat" => return .cat (← (elOf a 1).getStr?) (← (← (elOf a 2).getArr?).toList.mapM enodeOf)
+  | "rep" =>
+    return .rep (← (elOf a 1).getStr?) (← kindOf (← (elOf a 2).getStr?)) (← enodeOf (elOf a 3))
+      (← (elOf a 4).getNat?) (← optNatOf (elOf a 5))
+  | "crep" =>
+    if a.size != 4 then throw s!"bad crep {j.compress}"
+    return .crep (← (elOf a 1).getStr?) (← enodeOf (elOf a 2)) (← cbOf (elOf a 3))
+  | t => throw s!"bad node tag {t}"
+
+partial def jENode : ENode → Json
+  | .term (.lit l) => Json.arr #["lit", jLeaf l]
+  | .term (.regex i) => Json.arr #["re", jNat i]
+  | .nt n a r => Json.arr #["nt", Json.str n, jOptStr a, jOptStr r]
+  | .alt id ns => Json.arr #["alt", Json.str id, Json.arr (ns.map jENode).toArray]
+  | .cat id ns => Json.arr #["cat", Json.str id, Json.arr (ns.map jENode).toArray]
+  | .rep id k n mn mx => Json.arr #["rep", Json.str id, jKind k, jENode n, jNat mn, jOptNat mx]
+  | .crep id n b => Json.arr #["crep", Json.str id, jENode n, jCB b]
+
 def jTok : PTok → Json
   | .lp => "(" | .rp => ")" | .bar => "|" | .star => "*" | .plus => "+" | .quest => "?"
   | .repN n => Json.arr #["{", jNat n]
   | .repNM n m => Json.arr #["{", jNat n, jNat m]
   | .repOpen n => Json.arr #["{,", jNat n]
+  | .repC b => Json.arr #["{c", jCBT b]
   | .nt n s r => Json.arr #["nt", Json.str n, jOptStr s, jOptStr r]
   | .lit l => Json.arr #["lit", jLeaf l]
   | .re i => Json.arr #["re", jNat i]
@@ -34,42 +265,73 @@ def tokOf (j : Json) : Except String PTok := do
   | .str "+" => return .plus
   | .str "?" => return .quest
   | .arr a =>
-    let tag ← (a[0]?.getD Json.null).getStr?
-    let el (i : Nat) : Json := a[i]?.getD Json.null
+    let tag ← (elOf a 0).getStr?
     match tag, a.size with
-    | "{", 2 => return .repN (← (el 1).getNat?)
-    | "{", 3 => return .repNM (← (el 1).getNat?) (← (el 2).getNat?)
-    | "{,", 2 => return .repOpen (← (el 1).getNat?)
-    | "nt", 4 => return .nt (← (el 1).getStr?) (optStr (el 2)) (optStr (el 3))
-    | "lit", 2 => return .lit (← leafOfJson (el 1))
-    | "re", 2 => return .re (← (el 1).getNat?)
+    | "{", 2 => return .repN (← (elOf a 1).getNat?)
+    | "{", 3 => return .repNM (← (elOf a 1).getNat?) (← (elOf a 2).getNat?)
+    | "{,", 2 => return .repOpen (← (elOf a 1).getNat?)
+    | "{c", 2 => return .repC (← cbtOf (elOf a 1))
+    | "nt", 4 => return .nt (← (elOf a 1).getStr?) (optStr (elOf a 2)) (optStr (elOf a 3))
+    | "lit", 2 => return .lit (← leafOfJson (elOf a 1))
+    | "re", 2 => return .re (← (elOf a 1).getNat?)
     | _, _ => throw s!"bad token {j.compress}"
   | _ => throw s!"bad token {j.compress}"
 
-def jOptNode : Option Node → Json
-  | some n => jNode n
+def jOptNode : Option ENode → Json
+  | some n => jENode n
   | none => Json.null
+
+def ruleOf (j : Json) : Except String Rule := do
+  let gen ← match ← j.getObjVal? "gen" with
+    | .null => pure none
+    | x => do pure (some (← exprOf x))
+  return ⟨← j.getObjValAs? String "name", ← enodeOf (← j.getObjVal? "rhs"), gen⟩
+
+def jRule (r : Rule) : Json :=
+  Json.mkObj [("name", Json.str r.name), ("rhs", jENode r.rhs),
+    ("gen", match r.gen with | none => Json.null | some g => jExpr g)]
+
+def jRuleText (t : RuleText) : Json :=
+  Json.mkObj [("name", Json.str t.name), ("rhs", Json.arr (t.rhs.map jTok).toArray),
+    ("gen", match t.gen with | none => Json.null | some g => jETokens g)]
+
+def jRaw : Option (Bool × List Nat) → Json
+  | some (b, v) => Json.mkObj [("bytes", Json.bool b), ("v", jNats v)]
+  | none => Json.null
+
+def cfgOf (name : String) (cap : Nat) : Except String PrintCfg :=
+  match name with
+  | "generated" => pure { Generated.printCfg with cap := cap }
+  | "prefix" => pure (PrintCfg.preFix cap)
+  | "fixed" => pure (PrintCfg.fixed cap)
+  | s => throw s!"unknown cfg {s}"
 
 def handle (j : Json) : Except String Json := do
   let op ← j.getObjValAs? String "op"
   match op with
   | "print" =>
-    let n ← nodeOf (← j.getObjVal? "node")
+    let n ← enodeOf (← j.getObjVal? "node")
     let cap ← j.getObjValAs? Nat "cap"
-    let cfgName ← j.getObjValAs? String "cfg"
-    let cfg ← match cfgName with
-      | "generated" => pure { Generated.printCfg with cap := cap }
-      | "prefix" => pure (PrintCfg.preFix cap)
-      | "fixed" => pure (PrintCfg.fixed cap)
-      | s => throw s!"unknown cfg {s}"
+    let cfg ← cfgOf (← j.getObjValAs? String "cfg") cap
     let toks := print cfg n
     return Json.mkObj [("toks", Json.arr (toks.map jTok).toArray), ("wf", Json.bool (wf cap n)),
-      ("read", jOptNode (read cap toks)), ("norm", jNode (norm n)),
-      ("postfix_ok", Json.bool (postfixOk none toks))]
+      ("read", jOptNode (read cap toks)), ("norm", jENode (norm n)),
+      ("postfix_ok", Json.bool (postfixOk none toks)),
+      ("erased", jNode (erase n)), ("erased_norm", jNode (erase (norm n)))]
   | "read" =>
     let cap ← j.getObjValAs? Nat "cap"
     let toks ← (← (← j.getObjVal? "toks").getArr?).toList.mapM tokOf
     return Json.mkObj [("node", jOptNode (read cap toks))]
+  | "rules" =>
+    let cap ← j.getObjValAs? Nat "cap"
+    let rules ← (← (← j.getObjVal? "rules").getArr?).toList.mapM ruleOf
+    let texts := printG { Generated.printCfg with cap := cap } rules
+    return Json.mkObj [("texts", Json.arr (texts.map jRuleText).toArray),
+      ("wf", Json.bool (wfG cap rules)),
+      ("read", match readG cap texts with
+               | some rs => Json.arr (rs.map jRule).toArray
+               | none => Json.null),
+      ("norm", Json.arr ((normG rules).map jRule).toArray)]
   | "pyrepr" =>
     let kind ← j.getObjValAs? String "kind"
     let v ← natArr (← j.getObjVal? "v")
@@ -89,6 +351,32 @@ def handle (j : Json) : Except String Json := do
       | "b" => pure (PyLit.evalBytes t)
       | k => throw s!"unknown kind {k}"
     return Json.mkObj [("v", match r with | some v => jNats v | none => Json.null)]
+  | "reprint" =>
+    let isB ← j.getObjValAs? Bool "bytes"
+    let pat ← natArr (← j.getObjVal? "pat")
+    let text := PyLit.printRegex isB pat
+    let q := (PyLit.regexQuote pat).2
+    return Json.mkObj [("text", jNats text), ("wf", Json.bool (PyLit.regexWf isB pat)),
+      ("noff", Json.bool (isB || PyLit.noBareFF pat)),
+      ("rewrites", Json.bool (PyLit.rewrites q isB pat)),
+      ("spelled", jNats (PyLit.spelled isB pat)),
+      ("eval", jRaw (PyLit.evalRaw text)),
+      ("steps", Json.arr ((PyLit.spellSteps q isB [] pat).map
+        (fun p => Json.arr #[jNats p.1, jNats p.2])).toArray)]
+  | "raweval" =>
+    let t ← natArr (← j.getObjVal? "text")
+    return Json.mkObj [("v", jRaw (PyLit.evalRaw t))]
+  | "selprint" =>
+    let t ← topOf (← j.getObjVal? "top")
+    let toks := PS.printTop t
+    let flat := match t with
+      | .plain s | .star s | .lenBar s | .lenStar s => PS.flat s
+    return Json.mkObj [("toks", Json.arr (toks.map jSTok).toArray), ("wf", Json.bool (PS.wfTop t)),
+      ("read", match PS.readTop toks with | some r => jTop r | none => Json.null),
+      ("norm", jTop (PS.normTop t)), ("flat", Json.bool flat)]
+  | "selread" =>
+    let toks ← (← (← j.getObjVal? "toks").getArr?).toList.mapM stokOf
+    return Json.mkObj [("top", match PS.readTop toks with | some r => jTop r | none => Json.null)]
   | _ => throw s!"unknown op {op}"
 
 def main : IO Unit := run handle
